@@ -4,6 +4,7 @@ import Vata.Proofs.RunBridge
 import Vata.Proofs.TrimModel
 import Vata.Proofs.PropAux
 import Vata.Proofs.UsefulAux
+import Vata.Properties.RefTotal
 /-!
 # C03 – Trimming preserves the language and leaves no dead states; emptiness is exact
 
@@ -135,17 +136,49 @@ theorem C03_reference_exact (A B : TA) (fuel : Nat) (b : Bool) :
 example : equivM (removeUseless TrimEx.exA) TrimEx.exA 10 = some true ∧ emptyM TrimEx.exEmpty 10 = some true ∧
     emptyM TrimEx.exA 10 = some false := by decide
 
+/-! ### the models pass the reference, and the reference answers -/
+
+/-- above the explicit fuel bounds of `C03_reference_total` the exact deciders answer, and on the outputs of the models
+they answer what the property says: the two trimmed automata are equivalent to the input, and the emptiness decider
+returns exactly the verdict of the model of `IsLangEmpty` -/
+theorem C03_models_pass_reference (A : TA) (fuel : Nat) :
+    (fuelBoundM [removeUnreachable A, A] ≤ fuel → equivM (removeUnreachable A) A fuel = some true) ∧
+    (fuelBoundM [removeUseless A, A] ≤ fuel → equivM (removeUseless A) A fuel = some true) ∧
+    (fuelBoundM [A] ≤ fuel → emptyM A fuel = some (isEmptyRef A)) := by
+  refine ⟨fun hf => ?_, fun hf => ?_, fun hf => ?_⟩
+  · obtain ⟨b, hb, e⟩ := (C03_reference_total (removeUnreachable A) A fuel).1 hf
+    rw [hb, e.mpr (C03_removeUnreachable_lang A)]
+  · obtain ⟨b, hb, e⟩ := (C03_reference_total (removeUseless A) A fuel).1 hf
+    rw [hb, e.mpr (C03_removeUseless_lang A)]
+  · obtain ⟨b, hb, e⟩ := (C03_reference_total A A fuel).2 hf
+    rw [hb]
+    congr 1
+    rw [Bool.eq_iff_iff, e, (C03_emptiness_exact A).2]
+
+example : fuelBoundM [removeUseless TrimEx.exA, TrimEx.exA] ≤ 256 ∧ fuelBoundM [TrimEx.exEmpty] ≤ 8 ∧
+    emptyM TrimEx.exEmpty 8 = some true ∧ isEmptyRef TrimEx.exEmpty = true := ⟨by decide, by decide, by decide, by decide⟩
+
 /-!
+## closed since the last refresh of this file
+
+* "No totality theorem for the reference deciders `equivM`, `emptyM`": `C03_reference_total`
+  (`Vata/Properties/RefTotal.lean`; bounds `fuelBoundM [A, B]`, `fuelBoundM [A]`), composed with the models in
+  `C03_models_pass_reference`.  The post-condition checkers and `isEmptyRef` are total functions.
+* The sharing copy returned by the "nothing changed" shortcut (and by `RemoveUselessStates` with nothing to remove) is an
+  operation of the extended heap model of C11: `shareAll` / `shareClusters`, `C11_ext_sharing_results`,
+  `C11_ext_result_survives` – the result keeps its value whatever is done to the operand afterwards.
+* The same two operations on the BDD encodings are proved to compute `removeUnreachable` / `removeUseless` of this file
+  on the abstract automaton (`C08_td_trim`, `C08_bu_trim` in `Vata/Properties/C08_Tables.lean`).
+
 ## not yet proved
 
 * The "unchanged automaton" shortcut of `RemoveUnreachableStates` (return a sharing copy when every rule-owning state
   is reachable) is not a separate branch of `removeUnreachable`.  With the repaired set comparison it fires only when
   the filter of the model keeps every rule, so the model covers it; but "the shortcut fires only in that case" is a
-  fact about the C++ that is established by the correspondence check, not by a theorem.
+  fact about the C++ that is established by the correspondence check, not by a theorem.  (In the heap model of C11 the
+  set of kept states is a parameter `keep`, not computed.)
 * The work-list bookkeeping of `RemoveUselessStates` (`remaining` counters per rule) is modelled by rounds
   (`prodIter`), not step by step; only the computed sets are proved to be the specified ones (`C03_worklists_exact`).
-* The reference deciders `equivM`, `emptyM` are total above the explicit bounds `fuelBoundM [A, B]`, `fuelBoundM [A]`
-  (`C03_reference_total` in `Vata/Properties/RefTotal.lean`; exponential worst-case bounds, not tight).
-  The post-condition checkers and `isEmptyRef` are total functions.
+* The totality bounds of the reference deciders are exponential worst-case bounds, not tight.
 -/
 end Vata.Props
